@@ -130,6 +130,13 @@ CHECKS.update({
    note=TB_Z + " The history/probe part is exploration (sampled histories); two genuine defects found this way were fixed (LU cache keyed by precision / cleared on resize; mpf_bernoulli first-call rounding)."),
 })
 
+
+CHECKS.update({
+ "C38": dict(level="proof", engine="A", technique="Coq frame theorems on a store-of-contexts model (single step and arbitrary histories; clone copies precision); extracted model run against live mp/iv/fp/clones on random interleavings; bitwise clone-vs-mp result comparison",
+   text="Contexts are modelled as a store of independent (prec, dps) cells with the documented conversion formulas; operations aimed at one context are proved to leave every other context unchanged for any history, and clones to start with the parent's precision. Random interleavings of assignments, clones and evaluations (including failing ones) over mp, iv, fp and several clones are compared state by state with the extracted model; per-context settings (pretty, trap_complex, rounding) and bitwise equality of clone and mp results at equal precision are checked.",
+   note=TB_Z),
+})
+
 NOT_APPLICABLE = {
 }
 
